@@ -310,7 +310,7 @@ func aggEngine(r *core.Run) {
 		r.Set("large_universe_size", len(ul))
 	}
 	// (a) all multisets of size <= 3 in all orders
-	halfTriples := r.Quick() && r.Prop == "C05"
+	halfTriples := false // the star-shaped small universe made this unnecessary
 	core.Parallel(n, workers(), func(i int) {
 		aggEvalMultiset(r, uname, []int{i}, false)
 		cnt := 1
